@@ -127,6 +127,23 @@ def explore(res, scale=1, seed=None):
         res.tie_broken("extraction", "vm_compute inside Coq disagrees with the extracted evaluator:\n" + slog)
     os.remove(out)
 
+    # long histories on one connection: cross the boundaries of chpool's per-connection handle slab (64, then 128)
+    outl = os.path.join(wd, "c11long_%d.tsv" % seed)
+    rcl, logl, lstats, _ = C.run_harness(binp, "c11long", seed, 3, res.tier, outl, timeout=600)
+    if rcl != 0:
+        ex = _crash_excerpt(logl)
+        if ex is None:
+            raise C.Infra("harness c11long failed:\n" + logl[-2000:])
+        res.oracle_fail("c11long seed=%d" % seed, "panic-in-long-history: " + ex)
+    else:
+        lrows = C.read_transcript(outl)
+        lmodel = C.run_eval("Pool", [r[0] for r in lrows])
+        C.compare_rows(res, lrows, lmodel, "correspondence(long pool histories across the handle slab boundaries)")
+        res.account(lrows)
+        for k, v in lstats.items():
+            res.distribution[k] = res.distribution.get(k, 0) + v
+        os.remove(outl)
+
     # concurrent holders under the race detector: direct oracle only
     if res.oracle_failures:
         res.notes.append("concurrent family not run: the sequential histories already violate the property")
